@@ -159,6 +159,7 @@ def run_history(ad, cat, ops, times, alt=0):
   """alt: per operation, 0 = default context, 1 = the caller's alternative process context, 2 = that and overlapping other
   operations (core.AltContext); the SAME operation is observed in different contexts within one history."""
   from ..core import AltContext
+  from ..isdrun import _take_apart
   from ttconv.isd import ISD
   import ttconv.srt.writer as srt_writer
   import ttconv.vtt.writer as vtt_writer
@@ -178,9 +179,13 @@ def run_history(ad, cat, ops, times, alt=0):
         sigobj = ISD.significant_times(doc)
         r = tok([str(x) for x in sigobj])
       elif op.startswith("snapU_"):
-        r = snap_token(ISD.from_model(doc, Fraction(times[int(op[-1]) - 1], D)))
+        got = ISD.from_model(doc, Fraction(times[int(op[-1]) - 1], D))
+        r = snap_token(got)
+        _take_apart(got)             # the snapshot is the caller's: what is done to it must not show in a later result
       elif op.startswith("snapC_"):
-        r = snap_token(ISD.from_model(doc, Fraction(times[int(op[-1]) - 1], D), sigobj))
+        got = ISD.from_model(doc, Fraction(times[int(op[-1]) - 1], D), sigobj)
+        r = snap_token(got)
+        _take_apart(got)
       elif op == "seq":
         r = tok([(str(t), snap_token(i)) for t, i in ISD.generate_isd_sequence(doc)])
       elif op == "srt":
